@@ -2017,7 +2017,13 @@ fn collect_definitions<'a>(
     match &term.variant {
         Variant::Let(variable, annotation, definition, body) => {
             definitions.push((*variable, annotation.clone(), definition.clone()));
-            collect_definitions(definitions, body.clone())
+
+            // A parenthesized body is a group of its own, with its own scope.
+            if body.group {
+                body.clone()
+            } else {
+                collect_definitions(definitions, body.clone())
+            }
         }
         _ => term,
     }
